@@ -18,7 +18,19 @@ Bound to the code:
       degree <= 4 these methods build); linear methods satisfy f(T1 + 2 T2) = f(T1) + 2 f(T2); akima (not linear, but
       homogeneous) satisfies f(3 T) = 3 f(T).
   S   the same for the spline entry points: InterpND(x_interp=...).evaluate_spline and SplineComp (values, Jacobian
-      w.r.t. control points; bsplines: linearity and value = J . cp only)."""
+      w.r.t. control points; bsplines: linearity and value = J . cp only).
+  H   histories of queries on ONE InterpND (spec/mech/InterpHist.tla: every sequence of two queries - thorough: a
+      sample of three - over {interpolate, interpolate with derivative, gradient} x {point A, nudged point An, second
+      point B, batches [A,B], [B,A]}; law ReturnsRequested: every query returns the quantities of its own argument,
+      the reference cache discipline is model checked and the two faulty ones - reuse on the same point without a
+      computed gradient, reuse on a close point - are refuted by TLC) x a reduced scenario base of Interp.tla that
+      exports the exact gradient at A and B: the gradient a query returns in a history equals the one a fresh object
+      returns (and the exact one where the method reproduces the table).
+  A   Akima's interpolant with smoothing (delta_x > 0; Interp.tla section Akima, INIT InitAk): the spec defines the
+      interpolant with exact dual numbers (value and derivatives w.r.t. every table value by the sum / product /
+      quotient rule) on 1-D grids of 4-7 points, tables 2x + e (e in {-1,0,1}^n, sampled) and delta_x in {1/2, 1, 2};
+      evaluate_spline / SplineComp Jacobians, InterpND d/dx and training gradients are compared with these exact
+      derivatives wherever the returned value is the definition's value."""
 import collections
 import json
 import random
@@ -787,14 +799,18 @@ def run(ctx):
     for e in pick:
         ctx.sample({'scenario': e['s'], 'spec_outcome': e['o']})
     ctx.sample({'scenario': ak_sample['s'], 'spec_outcome': ak_sample['o']}, limit=4)
-    ctx.rule = ('every scenario of Interp.tla with InteriorOnly: %s; x {multilinear, tensor-quadratic, tensor-cubic} integer '
+    ctx.rule = ('(1) every scenario of Interp.tla with InteriorOnly: %s; x {multilinear, tensor-quadratic, tensor-cubic} integer '
                 'table x query point with every coordinate a cell midpoint or quarter point; each executed on InterpND '
                 '(gradient w.r.t. x: every reproducing method, single / vectorised / gradient(), fixed vs general; gradient '
                 'w.r.t. table values: every method that offers it), 1/5 of the groups through MetaModelStructuredComp '
                 '(partials, training_data_gradients) and 1/3 of the 1-D groups through evaluate_spline and SplineComp; every '
-                'scenario is non-trivial (in-cell point, no node)' %
+                'scenario is non-trivial (in-cell point, no node).  (2) query histories: every history of InterpHist.tla '
+                '(%d per scenario) x %d base scenarios (dimension 1-3, 2 positions per axis, second point B = a cell '
+                'midpoint elsewhere) on every applicable method.  (3) Akima with delta_x > 0: %d scenarios of the Akima '
+                'family (AkMod = %d, residue = seed), %d of them with a weight argument strictly inside the rounded section' %
                 ('1-D: all 336 grids; 2-D: all pairs of %d representative grids' % (5 if quick else 8) +
-                 ('' if quick else ' with quarter points of every cell; 3-D: 3 grids, midpoints')))
+                 ('' if quick else ' with quarter points of every cell; 3-D: 3 grids, midpoints'),
+                 len(hists), len(hexports), n_ak, 64 if quick else 4, n_ak_rounded))
     ctx.assumptions = [
         'C16 is partial (DESIGN.md section 7): the exact-derivative oracle exists only where the table is a polynomial of '
         'the class the method reproduces; for other tables (akima / cubic / bsplines / any method on a higher-degree '
@@ -807,5 +823,11 @@ def run(ctx):
         'd value / d table through InterpND is obtained the way MetaModelStructuredComp obtains it (_compute_d_dvalues / '
         '_d_dvalues, else training_gradients); fixed-dimension variants do not offer it (documented RuntimeError)',
         'bsplines: only linearity in the control points and value = J.cp are checked',
+        'histories: the point "An" is A + 2^-20 on the first axis (same cell; within numpy.allclose of A); results in a '
+        'history are compared with those of a fresh object at 1e-12*(1+max|table|) (the same arithmetic), a query a '
+        'fresh object refuses is not judged',
+        'Akima family: the derivative clauses are judged only where the returned value equals the value of the spec\'s '
+        'definition (1e-9); 1D-akima is excluded (it ignores delta_x: Interp1DAkima drops **kwargs); MetaModelStructured'
+        'Comp has no delta_x option',
         'float comparison with the spec: |obs - exact| <= 1e-9 + 1e-9*|exact| + 1e-11*max|table|; hat weights at 1e-12',
     ]
